@@ -59,10 +59,25 @@ type wxScenario struct {
 	Servers  []serverSpec  `json:"servers"`
 	Watchers []watcherSpec `json:"watchers"`
 	Actors   [][]actorOp   `json:"actors"`
-	TailNs   int64         `json:"tail_ns"`
 }
 
 func (s *wxScenario) SchedP() *core.Sched { return &s.Sched }
+
+// tailNs: idle time after the last actor finished, longer than anything the
+// scenario can still have pending (script delays, slow callbacks, watch
+// expiry, reconnect backoff after a bounded number of failed attempts).
+func (s *wxScenario) tailNs() int64 {
+	t := 400*sec + 20*s.ExpiryNs
+	for _, sv := range s.Servers {
+		for _, st := range sv.Steps {
+			t += 4 * st.DelayNs
+		}
+	}
+	for _, w := range s.Watchers {
+		t += 40 * w.SlowNs
+	}
+	return t
+}
 
 func (s *wxScenario) Shape() string {
 	ns, nb := 0, 0
@@ -361,9 +376,10 @@ func runWX(e *core.Env, s *wxScenario, prop string) {
 		}()
 	}
 	awg.Wait()
-	if s.TailNs > 0 {
-		time.Sleep(time.Duration(s.TailNs))
-	}
+	// Let everything settle: the liveness rules are judged at quiescence with
+	// no timer of the scenario still pending. The tail is derived from the
+	// scenario (not a scenario field the minimiser could shrink).
+	time.Sleep(time.Duration(s.tailNs()))
 	synctest.Wait()
 	e.Logf("quiescent")
 	wd.quietSeq, wd.quietNs = e.Seq, e.SimNs()
